@@ -173,6 +173,9 @@ cfg_k8s! {
 }
 // Utility functions for Sentinel.
 pub mod utils;
+/// Lock wrappers and deterministic scheduler of the verification harness.
+#[cfg(sentinel_verif)]
+pub mod verif_sync;
 
 // re-export precludes
 pub use crate::core::*;
